@@ -29,6 +29,8 @@ inductive Err
   | usage      -- Python only: assertion / ValueError raised on API misuse
   deriving DecidableEq, Repr, Inhabited
 
+deriving instance DecidableEq for Except
+
 def Err.name : Err → String
   | .oob => "oob" | .fuel => "fuel" | .wrap => "wrap" | .overflow => "overflow" | .usage => "usage"
 
@@ -216,10 +218,14 @@ def wrapS (W : Nat) (z : Int) : Int :=
 /-- width in which `~((1U << sat) - 1U)` is evaluated: `1U` for I8/I16, `1UL` for I32 (LP64), `1ULL` for I64 -/
 def extWidth (W : Nat) : Nat := if W ≤ 16 then 32 else 64
 
-/-- `nunavutGetI8/16/32/64`, including the `(-(intW_t) ~val) - 1` formulation. -/
-def getI (little : Bool) (W : Nat) (buf : Buf) (size off len : Nat) : Except Err Int := do
-  let sat := chooseMin len W
-  let val ← getU little W buf size off sat
+/-- The sign-extension text shared by `nunavutGetI8/16/32/64` and the C++ `getI8/16/32/64`
+(`val` is the unsigned field of `sat` bits):
+```
+const bool neg = (sat > 0U) && ((val & (1ULL << (sat - 1U))) != 0U);
+val = ((sat < W) && neg) ? (uintW_t)(val | ~((1U << sat) - 1U)) : val;
+return neg ? (intW_t)((-(intW_t)(uintW_t) ~val) - 1) : (intW_t) val;
+``` -/
+def signExtend (W sat val : Nat) : Except Err Int :=
   let neg : Bool := decide (sat > 0) && ((val &&& (1 <<< (sat - 1))) != 0)
   let C := extWidth W
   let val := if sat < W ∧ neg then (val ||| (((1 <<< sat) - 1) ^^^ (2 ^ C - 1))) % 2 ^ W else val
@@ -230,5 +236,11 @@ def getI (little : Bool) (W : Nat) (buf : Buf) (size off len : Nat) : Except Err
     if W ≥ 32 ∧ (x = -(2 ^ (W - 1)) ∨ -x - 1 < -(2 ^ (W - 1))) then .error .overflow
     else .ok (wrapS W (-x - 1))
   else .ok (wrapS W (val : Int))
+
+/-- `nunavutGetI8/16/32/64` -/
+def getI (little : Bool) (W : Nat) (buf : Buf) (size off len : Nat) : Except Err Int := do
+  let sat := chooseMin len W
+  let val ← getU little W buf size off sat
+  signExtend W sat val
 
 end NunavutVerif.Bits
